@@ -105,6 +105,49 @@ func catching(f func() Val) (out Val) {
 	return f()
 }
 
+// mutatedMatrixMsg: a matrix is a map the caller may change between calls. One entry
+// is changed in place (same map object, same size), the alignment is computed again
+// on it and on a fresh copy with the same content: the answers must be identical (an
+// implementation that caches a matrix by identity answers with stale scores).
+func mutatedMatrixMsg(a, b []byte, sm align.SubstitutionMatrix, frozen, global bool) string {
+	if frozen || len(a) == 0 || len(b) == 0 {
+		return ""
+	}
+	key := [2]byte{a[0], b[0]}
+	old, ok := sm[key]
+	if !ok {
+		return ""
+	}
+	run := func(m align.SubstitutionMatrix) (res string) {
+		defer func() {
+			if recover() != nil {
+				res = "panic"
+			}
+		}()
+		if global {
+			st, sc := align.Global(a, b, m)
+			return fmt.Sprint(st, sc)
+		}
+		st, ai, bi, sc := align.Local(a, b, m)
+		return fmt.Sprint(st, ai, bi, sc)
+	}
+	msg := ""
+	for _, delta := range []float64{7, -7} {
+		sm[key] = old + delta
+		onSame := run(sm)
+		fresh := align.SubstitutionMatrix{}
+		for k, v := range sm {
+			fresh[k] = v
+		}
+		if onFresh := run(fresh); onSame != onFresh {
+			msg = "after an entry of the matrix was changed in place the answer differs from the answer on a fresh copy of the same matrix (stale scores)"
+		}
+	}
+	sm[key] = old
+	run(sm)
+	return msg
+}
+
 // quietly runs f and ignores a panic (used for auxiliary calls only).
 func quietly(f func()) {
 	defer func() { recover() }()
@@ -132,6 +175,9 @@ func runGlobal(a0, b0 []byte, sm align.SubstitutionMatrix, frozen bool) Val {
 	quietly(func() { align.Local(b, a, sm) })
 	if !slices.Equal(steps, keep) {
 		return L(I(3), S("the steps returned by Global were changed by later calls"))
+	}
+	if msg := mutatedMatrixMsg(a, b, sm, frozen, true); msg != "" {
+		return L(I(3), S(msg))
 	}
 	if !frozen && !sameMatrix(before, sm) {
 		return L(I(3), S("matrix modified"))
@@ -162,6 +208,9 @@ func runLocal(a0, b0 []byte, sm align.SubstitutionMatrix, frozen bool) Val {
 	quietly(func() { align.Global(b, a, sm) })
 	if !slices.Equal(steps, keep) {
 		return L(I(3), S("the steps returned by Local were changed by later calls"))
+	}
+	if msg := mutatedMatrixMsg(a, b, sm, frozen, false); msg != "" {
+		return L(I(3), S(msg))
 	}
 	if !frozen && !sameMatrix(before, sm) {
 		return L(I(3), S("matrix modified"))
@@ -985,7 +1034,18 @@ func (g *alignGen) random(n int, mk func(alpha []byte) poolMat) {
 		if len(a) == 0 || len(b) == 0 {
 			strat = "random-empty"
 		}
-		g.run(a, b, mk(alpha), strat)
+		pm := mk(alpha)
+		if c.Intn(5) == 0 {
+			// weights that need more than 24 (and more than 32) bits: exact in float64,
+			// not in a narrower type
+			f := []int64{1<<24 + 1, 100000007, 1<<33 + 1}[c.Intn(3)]
+			big := imat{}
+			for k, v := range pm.m {
+				big[k] = v * f
+			}
+			pm = poolMat{big, pm.tag + "-big-weights"}
+		}
+		g.run(a, b, pm, strat)
 	}
 }
 
